@@ -1141,6 +1141,23 @@ def _size_param(load: ast.AST) -> str:
     return params[2]
 
 
+def _bound_var(load: ast.AST) -> str:
+    """the local that holds the number of bytes the frame may take: the size parameter itself, or - when load copies the
+    parameter into another local first (`expected = size`) and runs its record loop against that one - that local"""
+    param = _size_param(load)
+    copies = {st.targets[0].id for st in ast.walk(load) if isinstance(st, ast.Assign) and len(st.targets) == 1 and isinstance(st.targets[0], ast.Name)
+              and isinstance(st.value, ast.Name) and st.value.id == param}
+    if not copies:
+        return param
+    in_tests: Set[str] = set()
+    for lp in ast.walk(load):
+        if isinstance(lp, ast.While):
+            in_tests |= {n.id for n in ast.walk(lp.test) if isinstance(n, ast.Name)}
+    if param in in_tests or len(copies & in_tests) != 1:
+        return param
+    return next(iter(copies & in_tests))
+
+
 def _is_size_none_test(test: ast.AST, size: str) -> Optional[bool]:
     """truth value of the test when size is not None, if the test is about that"""
     t = simplify(from_ast(test))
@@ -1196,7 +1213,7 @@ def _load_fn(mod):
 def rule_S2(ctx, rule: str = "S2") -> None:
     mod = ctx.repo.mod(M_INIT)
     load = _load_fn(mod)
-    size = _size_param(load)
+    size = _bound_var(load)
     g = CFG(load, implicit_exc=False)
     heads = _load_loop_nodes(g, load)
     if not heads:
@@ -1253,7 +1270,7 @@ def rule_S2(ctx, rule: str = "S2") -> None:
 def rule_S1(ctx, rule: str = "S1") -> None:
     mod = ctx.repo.mod(M_INIT)
     load = _load_fn(mod)
-    size = _size_param(load)
+    size = _bound_var(load)
     g = CFG(load, implicit_exc=False)
     heads = _load_loop_nodes(g, load)
     acc = _accounting_nodes(g)
@@ -1437,9 +1454,9 @@ def rule_S3(ctx) -> None:
 
     mod = ctx.repo.mod(M_INIT)
     load = mod.func("Message.load")
-    size = _size_param(load)
+    size = _bound_var(load)
     sd = mod.consts.get("SIZE_DELIMITED")
-    atom = ("op", "==", N(size), C(sd))
+    atom = ("op", "==", N(_size_param(load)), C(sd))
     paths = _load_paths(ctx, mod, None, None, assume={atom: True})
     ok = True
     why = ""
